@@ -29,7 +29,9 @@ type Gen struct {
 	defs     []*refDef
 	nlabel   int
 	NoTabs   bool
-	ml       bool // inside multi-line content: tokens may contain a line break before a word
+	// TabInsideRun: a tab may also start inside the run of structural spaces that follows a marker, not only directly after it
+	TabInsideRun bool
+	ml           bool // inside multi-line content: tokens may contain a line break before a word
 }
 
 func (g *Gen) pick(n int) int { return g.R.Intn(n) }
